@@ -114,7 +114,7 @@ func analyseUpdateFn(w *World, fn *ssa.Function, depth int) *updAnalysis {
 		a.err = "Update has no receiver"
 		return a
 	}
-	a.logsMap = mk("field", "Logs", 0, nil, a.pRecv)
+	a.logsMap = fieldByType(a.pRecv, "map[string]witness.LogInfo")
 	a.eng = w.engine(depth, 1)
 	sums := a.eng.Explore(fn)
 	for i, s := range sums {
@@ -381,7 +381,7 @@ func ruleSameHandle(w *World, r *Run, a *updAnalysis, rule string) {
 	if !a.guard(r, rule) {
 		return
 	}
-	lsp := mk("field", "lsp", 0, nil, a.pRecv)
+	lsp := fieldByType(a.pRecv, "persistence.LogStatePersistence")
 	for _, v := range a.paths {
 		if v.writeOps != nil {
 			key := a.key(v, "WriteOps")
@@ -583,7 +583,7 @@ func ruleStoredIsCosigned(w *World, r *Run, a *updAnalysis, rule string) {
 	if !a.guard(r, rule) {
 		return
 	}
-	signers := mk("field", "Signers", 0, nil, a.pRecv)
+	signers := fieldByType(a.pRecv, "[]note.Signer")
 	for _, v := range a.paths {
 		for _, se := range v.sets {
 			key := a.key(v, "Set argument is Sign(verified note, all signers)")
@@ -1285,16 +1285,8 @@ func counterNames(w *World, r *Run, pkgPath, rule string) map[string]string {
 					r.Fail(rule, key, w.pos(st.Pos()), "metric name is not a constant")
 					continue
 				}
-				// the enclosing function must be a closure passed to (*sync.Once).Do
-				inOnce := false
-				if fn.Parent() != nil {
-					for _, ref := range onceDoClosures(fn.Parent()) {
-						if ref == fn {
-							inOnce = true
-						}
-					}
-				}
-				if !inOnce {
+				// the enclosing function must be handed to (*sync.Once).Do (closure or named function called from nowhere else)
+				if !w.inOnce(fn) {
 					r.Fail(rule, key, w.pos(st.Pos()), "counter assigned outside a sync.Once.Do closure (racy re-initialisation)")
 					continue
 				}
